@@ -1,6 +1,7 @@
 package msg
 
 import (
+	"crypto/sha256"
 	"encoding/hex"
 	"fmt"
 	"sync"
@@ -114,6 +115,12 @@ func (b *Box) Stop() {
 }
 
 func (b *Box) HandleMessage(msg *IncMessage) {
+	// Topics are always SHA-256 values
+	if len(msg.Topic) != sha256.Size {
+		b.Logger.Warnf("received message from %d with a topic of %d bytes", msg.Source, len(msg.Topic))
+		return
+	}
+
 	switch msg.MsgType {
 	case uint8(MsgTypeMPC):
 		b.storeOrForward(msg)
